@@ -304,9 +304,15 @@ def run(ctx):
                           dict(failed=bad, ids_in_file=[x.decode() for x in rows], cmd="12 x robsd-step -W -f F -i <10+i> -- name=.. & 6 x robsd-step -R -f F -i -1"))
     # ---- X4: a long critical section: a writer is held between lock and truncate for several seconds
     # while a second writer and a reader wait; neither may proceed before the holder unlocks
-    for t in range(ctx.n(1, 4)):
+    linkpath = os.path.join(work, "step.lnk")
+    if os.path.lexists(linkpath):
+        os.unlink(linkpath)
+    os.symlink("step.csv", linkpath)
+    for t in range(ctx.n(2, 6)):
         open(path, "wb").write(c0)
-        hold = 6.5 if t == 0 else rng.choice([2.0, 6.5, 11.0])
+        hold = 6.5 if t == 0 else 2.5 if t == 1 else rng.choice([2.0, 6.5, 11.0])
+        # every other time the waiting writer and the reader name the file through a symbolic link
+        other = linkpath if t % 2 == 1 else path
         sA = Sched(ctx, step, path, [("W", 21, full_row(21, "holder", 0))])
         pt = None
         for _ in range(6):
@@ -314,8 +320,8 @@ def run(ctx):
             if pt in ("read", "exit", None):
                 break
         t0 = time.time()
-        pB = subprocess.Popen([step, "-W", "-f", path, "-i", "22", "--"] + full_row(22, "waiter", 0), stderr=subprocess.PIPE, env=dict(os.environ, ASAN_OPTIONS="detect_leaks=0"))
-        pR = subprocess.Popen([step, "-R", "-f", path, "-i", "-1"], stdin=subprocess.PIPE, stdout=subprocess.PIPE, stderr=subprocess.PIPE, env=dict(os.environ, ASAN_OPTIONS="detect_leaks=0"))
+        pB = subprocess.Popen([step, "-W", "-f", other, "-i", "22", "--"] + full_row(22, "waiter", 0), stderr=subprocess.PIPE, env=dict(os.environ, ASAN_OPTIONS="detect_leaks=0"))
+        pR = subprocess.Popen([step, "-R", "-f", other, "-i", "-1"], stdin=subprocess.PIPE, stdout=subprocess.PIPE, stderr=subprocess.PIPE, env=dict(os.environ, ASAN_OPTIONS="detect_leaks=0"))
         pR.stdin.write(TEMPLATE)
         pR.stdin.close()
         pR.stdin = None
@@ -333,7 +339,7 @@ def run(ctx):
         kinds["long-hold"] = kinds.get("long-hold", 0) + 1
         info = dict(held_at=pt, hold_seconds=hold, finished_early=early, ids_in_file=ids, rcs=[outsA[0][0], pB.returncode, pR.returncode],
                     stderr=(errB + errR).decode(errors="replace")[-300:],
-                    replay="writer A (ROBSD_VERIF_SYNC) released up to the point after `read` and held there; robsd-step -W -i 22 and robsd-step -R -i -1 started meanwhile")
+                    replay="writer A (ROBSD_VERIF_SYNC) released up to the point after `read` and held there; robsd-step -W -i 22 and robsd-step -R -i -1 started meanwhile%s" % (" (both naming the file through a symbolic link)" if other != path else ""))
         if pt != "read":
             ctx.disagreement("long hold: the holder did not reach the point after read", info)
         elif early:
